@@ -201,6 +201,9 @@ def sweeps(rep, T, rng, quick):
         p1 = rng.choice([rng.uniform(0.1e6, 5.0e6), rng.uniform(0.1e6, 5.0e6), 0.1e6, 5.0e6])
         p2 = None if k % 2 == 0 else rng.choice([rng.uniform(0.1e6, 5.0e6), 0.1e6, 5.0e6])        # either order of the two stages
         hs = np.linspace(0.0, 3.5e6, 60 if quick else 200)
+        # ... and the cold end resolved finely (enthalpies of a few J/kg up to tens of kJ/kg)
+        hs = np.array(sorted(set(list(hs) + [1.0, 10.0, 100.0, 1.0e3, 5.0e3, 9.0e3, 9.99e3, 1.0e4, 1.27e4, 2.0e4, 4.0e4]
+                                 + [rng.uniform(0.0, 3.0e4) for _ in range(4)])))
         try:
             seq = [int(round(1e6 * float(T.separated_steam_fraction(h, p1, p2)))) for h in hs]
         except Exception as ex:
@@ -277,7 +280,24 @@ def run(tier):
     for p in [lo, hi, math.nextafter(lo, 0), math.nextafter(lo, 1e9), math.nextafter(hi, 0), math.nextafter(hi, 1e9), 1.0, 1e5, 1e7, 3e7]:
         want = lo <= p <= hi
         try:
+            # checking on and off for the same state, in either order: the checked call's answer does not depend on an
+            # unchecked call made before it, and an unchecked call's answer is the same before and after a checked one
+            first = None
+            order_ = (len(rep.distinct) % 2 == 0)
+            if order_:
+                try:
+                    first = T.tsat(p)
+                except Exception:
+                    first = "raised"
             got = T.tsat(p, bounds=True) is not None
+            try:
+                again = T.tsat(p)
+            except Exception:
+                again = "raised"
+            if (first is not None and repr(first) != repr(again)) or (want and again is None):
+                rep.violation("tsat_range:unchecked-call-depends-on-history", "R_tsat_range_flag",
+                              {"p": p, "unchecked_before": repr(first), "unchecked_after_a_checked_call": repr(again)})
+                continue
         except Exception as ex:
             rep.violation("tsat_range:raises", "R_tsat_range_flag", {"p": p, "error": repr(ex)})
             continue
